@@ -44,6 +44,25 @@ func vCellMeta() *pb.CellBlockMeta {
 	return &pb.CellBlockMeta{Length: &l}
 }
 
+// vCellMetaNear: the declared length is the real one, off by one either way, or absent.
+func vCellMetaNear(n int) *pb.CellBlockMeta {
+	var l uint32
+	switch verifChoose(4) {
+	case 0:
+		return nil
+	case 1:
+		l = uint32(n)
+	case 2:
+		l = uint32(n) + 1
+	case 3:
+		if n == 0 {
+			return &pb.CellBlockMeta{}
+		}
+		l = uint32(n) - 1
+	}
+	return &pb.CellBlockMeta{Length: &l}
+}
+
 func vPbResult() *pb.Result {
 	if verifChoose(2) == 0 {
 		return nil
@@ -226,11 +245,16 @@ func vReceive(kind int) {
 		// cellblock dimensions are not multiplied out: CELLS=0 arbitrary response shapes
 		// without a cellblock, CELLS=1 well-indexed responses with arbitrary cell counts,
 		// cellblock bytes and declared lengths.
-		if kind != 3 || verifParam("CELLS") == 1 {
+		if kind != 3 {
 			h.CellBlockMeta = vCellMeta()
 			if verifChoose(2) == 1 {
 				cells = verifBytesN(verifParam("N"))
 			}
+		} else if verifParam("CELLS") == 1 {
+			if verifChoose(2) == 1 {
+				cells = verifBytesN(verifParam("N"))
+			}
+			h.CellBlockMeta = vCellMetaNear(len(cells))
 		}
 		respFails = verifChoose(2) == 1
 		if !respFails {
